@@ -1561,6 +1561,12 @@ namespace bloch::compiler {
                                  "'" + fn->name + "' is already declared in this scope");
             }
             declareFunction(fn->name);
+            // Record the signature now: calls may appear before the definition (in a class body
+            // or in an earlier function) and must be checked against the real parameter list.
+            FunctionInfo info;
+            info.returnType = typeFromAst(fn->returnType.get());
+            for (auto& p : fn->params) info.paramTypes.push_back(typeFromAst(p->type.get()));
+            m_functionInfo[fn->name] = info;
         }
         for (auto& cls : program.classes)
             if (cls)
